@@ -3,6 +3,7 @@
 // Protocol: one op per line, strings as hex ("-" = empty). See tools/tracelib.py.
 #include "trace.hpp"
 #include "IPhreeqc.h"
+#include "IPhreeqc_interface_F.h"
 #include <fstream>
 #include <memory>
 #include <unistd.h>
@@ -62,7 +63,8 @@ static void views(TraceIPhreeqc* p){
     int n = p->GetNthSelectedOutputUserNumber(i);
     p->SetCurrentSelectedOutputUserNumber(n);
     std::cout<<"V sel "<<n<<" stron="<<p->GetSelectedOutputStringOn()<<" fileon="<<p->GetSelectedOutputFileOn()
-             <<" rows="<<p->GetSelectedOutputRowCount()<<" cols="<<p->GetSelectedOutputColumnCount()<<"\n";
+             <<" rows="<<p->GetSelectedOutputRowCount()<<" cols="<<p->GetSelectedOutputColumnCount()
+             <<" hp="<<(TestSelectedOutput::high_precision(p,n)?1:0)<<"\n";
     std::cout<<"V selstr "<<n<<" "<<hx::hex(p->GetSelectedOutputString())<<"\n";
     std::string tag = "sellines "+std::to_string(n);
     lineView(tag.c_str(), p->GetSelectedOutputStringLineCount(), [&](int k){return std::string(p->GetSelectedOutputStringLine(k));});
@@ -79,6 +81,7 @@ static void views(TraceIPhreeqc* p){
   std::cout<<"\nV selfilemap";
   for(auto& kv: TestIPhreeqc::selfileon(p)) std::cout<<" "<<kv.first<<"="<<kv.second;
   std::cout<<"\n";
+  std::cout<<"V dumpstate "<<TestSelectedOutput::dump_state(p)<<" prdump="<<TestSelectedOutput::pr_dump(p)<<" prpunch="<<TestSelectedOutput::pr_punch(p)<<"\n";
   size_t nc = p->GetComponentCount();
   std::cout<<"V comp "<<nc;
   for(size_t i=0;i<nc;i++) std::cout<<" "<<hx::hex(p->GetComponent((int)i));
@@ -136,6 +139,31 @@ int main(int argc, char** argv){
       int save=p->GetCurrentSelectedOutputUserNumber(); p->SetCurrentSelectedOutputUserNumber(std::stoi(w[1]));
       CVar v; VRESULT r=p->GetSelectedOutputValue(std::stoi(w[2]),std::stoi(w[3]),&v);
       std::cout<<"R get "<<(int)r<<" "<<showVar(v)<<"\n"; p->SetCurrentSelectedOutputUserNumber(save);
+    }
+    else if(op=="cells"){ // cells n r0 r1 c0 c1 cap : every (row, col) of user number n through C, C++, Value2 and the Fortran glue
+      int n=std::stoi(w[1]), r0=std::stoi(w[2]), r1=std::stoi(w[3]), c0=std::stoi(w[4]), c1=std::stoi(w[5]), cap=std::stoi(w[6]);
+      int save=p->GetCurrentSelectedOutputUserNumber(); p->SetCurrentSelectedOutputUserNumber(n);
+      int id=p->GetId();
+      auto& tabs = TestIPhreeqc::tables(p);
+      auto it0 = tabs.find(n);
+      std::string before = it0==tabs.end()?std::string("none"):dumpTable(it0->second);
+      std::cout<<"K "<<n<<" rows "<<GetSelectedOutputRowCount(id)<<" "<<p->GetSelectedOutputRowCount()<<" "<<GetSelectedOutputRowCountF(&id)
+               <<" cols "<<GetSelectedOutputColumnCount(id)<<" "<<p->GetSelectedOutputColumnCount()<<" "<<GetSelectedOutputColumnCountF(&id)<<"\n";
+      std::vector<char> sv(cap+8), svf(cap+8);
+      for(int r=r0;r<=r1;r++) for(int c=c0;c<=c1;c++){
+        VAR v1; VarInit(&v1); int rc=GetSelectedOutputValue(id,r,c,&v1); std::string s1=showVar(v1); VarClear(&v1);
+        CVar v2; int rcpp=(int)p->GetSelectedOutputValue(r,c,&v2); std::string s2=showVar(v2);
+        int vt=-1; double d=0; memset(sv.data(),'#',cap+8); int r2=GetSelectedOutputValue2(id,r,c,&vt,&d,sv.data(),(unsigned)cap);
+        int vtf=-1; double df=0; memset(svf.data(),'#',cap+8); int lenf=cap; int cf=c+1; int rr=r; int rf=GetSelectedOutputValueF(&id,&rr,&cf,&vtf,&df,svf.data(),&lenf);
+        // bytes behind the buffer must stay untouched ('#')
+        bool over2=false, overf=false; for(int k=cap;k<cap+8;k++){ if(sv[k]!='#') over2=true; if(svf[k]!='#') overf=true; }
+        std::cout<<"C "<<r<<" "<<c<<" "<<rc<<" "<<s1<<" | cpp "<<rcpp<<" "<<s2<<" | v2 "<<r2<<" "<<vt<<" "<<hx::hexd(d)<<" "<<hx::hex(std::string(sv.data(),strnlen(sv.data(),cap)))<<" "<<(over2?1:0)
+                 <<" | f "<<rf<<" "<<vtf<<" "<<hx::hexd(df)<<" "<<hx::hex(std::string(svf.data(),cap))<<":"<<lenf<<" "<<(overf?1:0)<<"\n";
+      }
+      auto it1 = tabs.find(n);
+      std::string after = it1==tabs.end()?std::string("none"):dumpTable(it1->second);
+      std::cout<<"R cells "<<(before==after?"unchanged":"CHANGED")<<"\n";
+      p->SetCurrentSelectedOutputUserNumber(save);
     }
     else std::cout<<"bad-op "<<op<<"\n";
     } catch (const std::exception& e) {
